@@ -307,6 +307,34 @@ def rw_for_ref_pattern(text):
     return text, cnt
 
 
+def rw_anyhow(text):
+    """`anyhow::bail!(<fmt args>);` -> `return Err(AnyErr);`   `anyhow!(<fmt args>)` -> `AnyErr`
+    (only the presence of an error value matters to the contracts; the message is dropped)."""
+    cnt = 0
+    while True:
+        msk = L.mask(text)
+        m = re.search(r"\b(?:anyhow::)?bail!\s*\(", msk)
+        if not m:
+            break
+        o = msk.find("(", m.start())
+        c = L.match_brace(msk, o)
+        e = c + 1
+        if e < len(text) and text[e] == ";":
+            e += 1
+        text = text[:m.start()] + "return Err(AnyErr);" + text[e:]
+        cnt += 1
+    while True:
+        msk = L.mask(text)
+        m = re.search(r"\banyhow!\s*\(", msk)
+        if not m:
+            break
+        o = msk.find("(", m.start())
+        c = L.match_brace(msk, o)
+        text = text[:m.start()] + "AnyErr" + text[c + 1:]
+        cnt += 1
+    return text, cnt
+
+
 def rw_drop_if_debug(text):
     """After the env_cache rewrite, debug switches are the literal `false` (or a local bound to it).
     `if <switch> [&& ...] { ... }` without an else branch is dead code: drop the whole statement."""
@@ -336,6 +364,7 @@ GENERIC = [
     ("drop eprintln!/println! statements", rw_drop_prints),
     ("crate::env_cache::*() debug switches -> false", rw_env_cache),
     ("drop dead `if <debug switch> { .. }` blocks", rw_drop_if_debug),
+    ("anyhow::bail!(..) -> return Err(AnyErr); anyhow!(..) -> AnyErr", rw_anyhow),
     ("for &x in slice / for (i,&x) in slice.iter().enumerate() -> indexed loop", rw_for_ref_pattern),
 ]
 
